@@ -379,7 +379,8 @@ def isCountCast : CastOpType → Bool
   | _ => false
 
 /-- **C13-itv-cast.** `IntervalDomain::cast` is sound for the reference semantics (C02 `cast_sound`).
-For `PopCount`/`LzCount` the bit length of the operand must be representable in the result (`hfit`). -/
+(`hfit` is no longer needed since the repair of the count casts in `IntervalDomain::cast` — `Top` if the
+bit length of the operand is not representable in the result — and only kept for the callers.) -/
 theorem itvCast_sound (op : CastOpType) (s : Nat) (a : IntervalDomain) (ha : a.WF) (hs : 0 < s)
     (hfit : isCountCast op = true → (a.interval.w : Int) ≤ smax (8 * s))
     {x z : Bv} (hxw : x.w = a.interval.w) (hx : a.Mem x.toInt) (hz : Ref.cast op s x = .val z) :
@@ -388,8 +389,7 @@ theorem itvCast_sound (op : CastOpType) (s : Nat) (a : IntervalDomain) (ha : a.W
     rw [← hxw]
     cases op <;> simp only [castOfIR, reduceCtorEq, or_false, false_or, or_self, false_imp_iff] <;>
       (intro _; simp only [Ref.cast] at hz; split at hz <;> first | assumption | cases hz)
-  have hfit' : (castOfIR op = .popCount ∨ castOfIR op = .lzCount) → (a.interval.w : Int) ≤ smax (8 * s) := by
-    cases op <;> simp [castOfIR, isCountCast] at hfit ⊢ <;> exact hfit
+  have _ := hfit
   have hc : C02.concCast (castOfIR op) a.interval.w (8 * s) x.toInt = some z.toInt := by
     rw [← hxw]
     cases op <;> simp only [Ref.cast, valV] at hz <;> (try cases hz) <;>
@@ -405,17 +405,17 @@ theorem itvCast_sound (op : CastOpType) (s : Nat) (a : IntervalDomain) (ha : a.W
     · simp only [Bv.toInt, ref_popcount_toInt]
     · simp only [Bv.toInt, ref_lzcount_toInt]
   unfold itvCast
-  refine ⟨C02.cast_sound a (castOfIR op) (8 * s) ha (by omega) hext hfit' hx hc, ?_⟩
-  rw [(C02.cast_wf a (castOfIR op) (8 * s) ha (by omega) hext hfit').2, C10.ref_cast_w hz]
+  refine ⟨C02.cast_sound a (castOfIR op) (8 * s) ha (by omega) hext hx hc, ?_⟩
+  rw [(C02.cast_wf a (castOfIR op) (8 * s) ha (by omega) hext).2, C10.ref_cast_w hz]
 
 theorem itvCast_wf (op : CastOpType) (s : Nat) (a : IntervalDomain) (ha : a.WF) (hs : 0 < s)
     (hext : (op = .IntZExt ∨ op = .IntSExt) → a.interval.w ≤ 8 * s)
     (hfit : isCountCast op = true → (a.interval.w : Int) ≤ smax (8 * s)) :
     (itvCast op s a).WF ∧ (itvCast op s a).interval.w = 8 * s := by
+  have _ := hfit
   unfold itvCast
   apply C02.cast_wf a (castOfIR op) (8 * s) ha (by omega)
-  · cases op <;> simp [castOfIR] at hext ⊢ <;> exact hext
-  · cases op <;> simp [castOfIR, isCountCast] at hfit ⊢ <;> exact hfit
+  cases op <;> simp [castOfIR] at hext ⊢ <;> exact hext
 
 theorem ref_subpiece_toInt {w : Nat} (x : BitVec w) (low size : Nat) :
     (Ref.subpiece x low size).toInt = csubpiece w low size x.toInt := by
